@@ -76,11 +76,14 @@ def token_listing(s: str, dialect: str = "en") -> list[list[int]]:
             super().build(token)
 
     b = RecFmt()
+    parser = Parser(b)
     try:
-        Parser(b).parse(s, TokenMatcher(dialect))
+        printed = [parser.parse(s, TokenMatcher(dialect)), b.get_result(), parser.ast_builder.get_result()]
     except ParserError:
-        pass
-    return [cp(x) for x in b.lines]
+        printed = []
+    # what parse() returns -- and what the builder answers when asked again -- is the listing of exactly the tokens it received
+    extra = [f"<result {k} of the formatter is not the listing of the received tokens>" for k, x in enumerate(printed) if x != "\n".join(b.lines)]
+    return [cp(x) for x in b.lines + extra]
 
 
 def record(name: str, s: str, dialect: str = "en", mode: str = "collect", nid0: int = 0, compile_: bool = True,
